@@ -255,6 +255,8 @@ func c19Facts(c *Ctx) {
 	}
 	c.Op(fmt.Sprintf("rmw-split-end %d", len(splits)), "ok")
 	c.Count(fmt.Sprintf("fact:rmw-split:%d", len(splits)))
+	// goroutine / deferred literals inside loops that read the loop variable (pre-1.22 semantics: one shared variable)
+	c19LoopVarFacts(c)
 	// lock leaks (a return path that keeps a lock) and the lock-order graph (a cycle = possible deadlock)
 	if c19LastScan != nil {
 		leaks := c19LastScan.lockLeaks()
